@@ -1,17 +1,22 @@
-(* C20 engine: runs PathConfModel.pc_handle over a case line. Case grammar (ops
-   separated by ';'), identical to harness/src/engines/c20.rs:
-     R <abs>  |  D <p>  |  F <p>  |  L <p> <target>  |  U <dir>|-  |  Q <method> <rawpath> <rawquery|-> <mode>
-   The model's file system is the chain of directories leading to R (so that
-   ".." above R and absolute names behave as on the real disk) with the tree of
-   the case below it. Tree ops with a missing/non-directory parent, an existing
-   name or an empty/./.. component are ignored (same rule as the harness).
+(* C20 engine: runs the history model of PathConfModel (pc_step: tree change /
+   processor (re)build / request) over a case line. Case grammar (ops separated
+   by ';'), identical to harness/src/engines/c20.rs:
+     R <abs>  |  D <p>  |  F <p>  |  L <p> <target>  |  P <p> <target>  |  X <p>  |  M <p> <q>
+     |  U <dir>|-  |  Q <method> <rawpath> <rawquery|-> <mode>
+   Every op is ONE event of the model's history, applied in order to one state
+   (tree, configured update_path): D/F/L = OCreate, P = ORepoint (re-point a
+   symbolic link), X = ORemove, M = ORename, U = ENew (the processor is built
+   with that update_path), Q = EReq. Tree ops may stand anywhere, also between
+   requests. The model's file system is the chain of directories leading to R
+   (so that ".." above R and absolute names behave as on the real disk) with the
+   tree of the case below it; a tree op the file system would refuse leaves the
+   tree as it is (pc_apply; the harness has the same rule), so any subsequence
+   of a case is a case.
    Observation per Q: `<status|none> <entries|-> why`, each entry
    `<where the enqueued text resolves>:<c|n>` (c = the text is its own
-   canonicalisation). *)
+   canonicalisation), in the tree as it is at that request. *)
 open Conv
 open PathConfModel
-
-type t = D of (string * t) list ref | F | L of string
 
 let hexval c = match c with
   | '0'..'9' -> Some (Char.code c - 48) | 'a'..'f' -> Some (Char.code c - 87)
@@ -45,29 +50,10 @@ let string_of_bytes l = String.concat "" (Stdlib.List.map (fun n -> String.make 
 let subst_root (s : string) (root : string) : string =
   String.concat root (String.split_on_char '@' s)
 
-let tree_comps (p : string) : string list option =
-  let cs = Stdlib.List.map unpct (String.split_on_char '/' p) in
-  if Stdlib.List.exists (fun c -> c = "" || c = "." || c = ".." || String.contains c '\000' || String.contains c '/') cs
-  then None else Some cs
-
-let add (root : t) (p : string) (node : t) : unit =
-  match tree_comps p with
-  | None -> ()
-  | Some cs ->
-    let rec go cur = function
-      | [] -> ()
-      | [c] -> (match cur with
-                | D es -> if Stdlib.List.mem_assoc c !es then () else es := !es @ [(c, node)]
-                | _ -> ())
-      | c :: r -> (match cur with
-                   | D es -> (match Stdlib.List.assoc_opt c !es with Some n -> go n r | None -> ())
-                   | _ -> ()) in
-    go root cs
-
-let rec conv (n : t) : pc_node = match n with
-  | F -> PFile
-  | L s -> PLink (bytes_of_string s)
-  | D es -> PDir (Stdlib.List.map (fun (k, n) -> (bytes_of_string k, conv n)) !es)
+(* the physical path of a tree op: components between '/', %XX-decoded; whether
+   they are acceptable names is the model's business (pc_path_valid) *)
+let tree_path (rcomps : string list) (p : string) =
+  Stdlib.List.map bytes_of_string (rcomps @ Stdlib.List.map unpct (String.split_on_char '/' p))
 
 let safe_root r =
   String.length r > 0 && r.[0] = '/' && r.[String.length r - 1] <> '/' &&
@@ -83,14 +69,16 @@ let run_case (line : string) : string =
     let root = Stdlib.List.nth o 1 in
     if not (safe_root root) then "BADCASE" else begin
       let rcomps = split_on '/' root in
-      let tree = D (ref []) in
-      let full_fs () =
-        Stdlib.List.fold_right (fun c acc -> PDir [(bytes_of_string c, acc)]) rcomps (conv tree) in
+      (* the chain of directories leading to R, R empty *)
+      let fs0 = Stdlib.List.fold_right (fun c acc -> PDir [(bytes_of_string c, acc)]) rcomps (PDir []) in
       let cwd = Stdlib.List.map bytes_of_string rcomps in
       let api = bytes_of_string "/mrt/u/" in
-      let update = ref None in
+      let state = ref (fs0, None) in
       let out = ref [] in
       let emit s = out := s :: !out in
+      let event e = let (s', _) = pc_step cwd api !state e in state := s' in
+      let tp = tree_path rcomps in
+      let target t = bytes_of_string (unpct (subst_root t root)) in
       let show_path (p : BinNums.coq_N list list) =
         let ps = Stdlib.List.map string_of_bytes p in
         let rec strip a b = match a, b with
@@ -104,21 +92,24 @@ let run_case (line : string) : string =
       Stdlib.List.iter (fun op ->
         match op with
         | ["R"; _] -> ()
-        | ["D"; p] -> add tree p (D (ref []))
-        | ["F"; p] -> add tree p F
-        | ["L"; p; t] ->
-            let t = unpct (subst_root t root) in
-            if t = "" || String.contains t '\000' then () else add tree p (L t)
-        | ["U"; "-"] -> update := None
-        | ["U"; d] -> update := Some (bytes_of_string (unpct (subst_root d root)))
+        | ["D"; p] -> event (EFs (OCreate (tp p, KDir)))
+        | ["F"; p] -> event (EFs (OCreate (tp p, KFile)))
+        | ["L"; p; t] -> event (EFs (OCreate (tp p, KLink (target t))))
+        | ["P"; p; t] -> event (EFs (ORepoint (tp p, target t)))
+        | ["X"; p] -> event (EFs (ORemove (tp p)))
+        | ["M"; p; q] -> event (EFs (ORename (tp p, tp q)))
+        | ["U"; "-"] -> event (ENew None)
+        | ["U"; d] -> event (ENew (Some (target d)))
         | ["Q"; m; rawpath; rawquery; mode] ->
             let q = if rawquery = "-" then None else Some (bytes_of_string (subst_root rawquery root)) in
             let md = match mode with "e" -> MErr | "d" -> MDrop | "s" -> MSilent | _ -> MOk in
             let rq = { rq_get = (m = "GET"); rq_path = bytes_of_string rawpath; rq_query = q; rq_mode = md } in
-            let fs = full_fs () in
-            (match pc_handle fs cwd api !update rq with
-             | None -> emit "none - why"
-             | Some (st, enq) ->
+            let (fs, update) = !state in
+            (* the answer is the model's step on the state the history has led to *)
+            (match snd (pc_step cwd api !state (EReq rq)) with
+             | None -> emit "BADSTEP"
+             | Some None -> emit "none - why"
+             | Some (Some (st, enq)) ->
                  (* per entry: where its TEXT resolves and whether that text is canonical
                     (pc_observe; by C20_enqueued_text_is_canonical always the checked path and true) *)
                  let show_entry p =
@@ -128,7 +119,7 @@ let run_case (line : string) : string =
                     | Datatypes.Coq_inl _ -> "UNRES:" ^ enc ("/" ^ String.concat "/" (Stdlib.List.map string_of_bytes p)))
                    ^ (if canonical then ":c" else ":n") in
                  let e = match enq with [] -> "-" | l -> join "," (Stdlib.List.map show_entry l) in
-                 let w = int_of_n (pc_why fs cwd !update rq) in
+                 let w = int_of_n (pc_why fs cwd update rq) in
                  emit (Printf.sprintf "%d %s why<|:%d>" (int_of_n st) e w))
         | _ -> emit "BADOP") ops;
       join " " (Stdlib.List.rev !out)
